@@ -24,7 +24,9 @@ LEVEL = "exploration"
 TECHNIQUE = "bounded exhaustive enumeration of tapes / (circuit, pipeline, level) triples / resource-object pairs vs. plain-Python summaries"
 LEVEL_TEXT = ("All gate words of length <=3 (thorough 4) over 10 letters x 4 measurement sets for tape.specs; all circuits (<=3, thorough 4 "
               "letters of 4) x pipelines (<=2, thorough 3 transforms of 3) x every accepted level for qp.specs; all pairs/scalars of the "
-              "declared resource-object sets.  Counts, wires, depth, totals, shots, device data and level are compared exactly.")
+              "declared resource-object sets.  Counts, wires, depth, totals, shots, device data and level are compared exactly. Derived-tape "
+              "histories: every sequence of <=2 of 16 derive events (copy variants, copy(measurements/operations/shots/trainable_params), split_non_commuting, "
+              "map_to_standard_wires) x every subset of objects whose .specs is read on the way; every object's specs must describe that object.")
 LEVEL_NOTE = ("Reference = Counter / set / wire-level longest path written from the documentation.  Gradient- and device-level circuits are "
               "taken from construct_batch (declared dependence; C23 checks level slicing).  A trainable-parameter count is not exposed by "
               "SpecsResources/CircuitSpecs at this commit, so that clause is undecided.  qjit / MLIR specs not explored.")
